@@ -768,9 +768,8 @@ class Collection(object):
                             if isinstance(value, dict):
                                 if '$each' in value:
                                     # append the list to the field
-                                    existing_document[field] += [
-                                        obj for obj in list(value['$each'])
-                                        if obj not in existing_document[field]]
+                                    existing_document[field] += _values_to_add_to_set(
+                                        existing_document[field], list(value['$each']))
                                     continue
                             if value not in existing_document[field]:
                                 existing_document[field].append(value)
@@ -799,9 +798,8 @@ class Collection(object):
                                     nested_field_list[-1]]
 
                             if isinstance(value, dict) and '$each' in value:
-                                push_results += [
-                                    obj for obj in list(value['$each'])
-                                    if obj not in push_results]
+                                push_results += _values_to_add_to_set(
+                                    push_results, list(value['$each']))
                             elif value not in push_results:
                                 push_results.append(value)
 
@@ -2208,6 +2206,15 @@ def _pop_from_list(list_instance, mongo_pop_value):
         list_instance.pop()
     elif mongo_pop_value == -1:
         list_instance.pop(0)
+
+
+def _values_to_add_to_set(existing, values):
+    """The values $addToSet appends to existing: those it does not hold yet, each of them once."""
+    to_add = []
+    for value in values:
+        if value not in existing and value not in to_add:
+            to_add.append(value)
+    return to_add
 
 
 def _current_date_updater(doc, field_name, value):
